@@ -441,7 +441,9 @@ func TestVerifC11Small(t *testing.T) {
 			return func(r *pb.RPC) { b := true; ctl(r).Extensions = &pb.ControlExtensions{TestExtension: &b} }
 		},
 		func(sz int) func(*pb.RPC) {
-			return func(r *pb.RPC) { r.Partial = &pb.PartialMessagesExtension{TopicID: &topic, PartialMessage: []byte(pad(sz))} }
+			return func(r *pb.RPC) {
+				r.Partial = &pb.PartialMessagesExtension{TopicID: &topic, PartialMessage: []byte(pad(sz))}
+			}
 		},
 		func(sz int) func(*pb.RPC) { return func(r *pb.RPC) { r.TestExtension = &pb.TestExtension{} } },
 	}
